@@ -207,6 +207,8 @@ func vStreamFresh(kind int) vSer {
 
 // every strict prefix of a valid stream is rejected with an error: no panic, no hang, no success
 func H_C16_truncate() {
+	vPickReaderChunk()
+	defer func() { vBufChunk = 0 }()
 	kind := vChoose("kind", vSKinds)
 	vTag("kind=" + vSNames[kind])
 	state := vChoose("state", 3)
@@ -222,7 +224,7 @@ func H_C16_truncate() {
 		// native replay: the real roaring / BSI byte formats have other lengths than the models',
 		// so the replayed offset may name another field boundary: confirm against every prefix
 		for p = 0; p < len(buf.b); p++ {
-			b2 := &vBuf{b: buf.b, limit: p}
+			b2 := &vBuf{b: buf.b, limit: p, chunk: vBufChunk}
 			_, rerr := vStreamFresh(kind).ReadFrom(b2)
 			vAssert(rerr != nil, "strict-prefix-is-rejected")
 		}
@@ -260,6 +262,8 @@ func vC16StillEmpty(kind int, dst vSer) {
 }
 
 func H_C16_truncate_hybrid() {
+	vPickReaderChunk()
+	defer func() { vBufChunk = 0 }()
 	withText := vChoose("with_text", 2) == 1
 	mk := func(populated bool) HybridSearchIndex {
 		flat, _ := NewFlatIndex(2, L2Squared)
@@ -285,7 +289,7 @@ func H_C16_truncate_hybrid() {
 	all.limit = vChoose("prefix", len(all.b))
 	if !vSymbolic() {
 		for p := 0; p < len(all.b); p++ {
-			b2 := &vBuf{b: all.b, limit: p}
+			b2 := &vBuf{b: all.b, limit: p, chunk: vBufChunk}
 			_, rerr := mk(false).ReadFrom(b2)
 			vAssert(rerr != nil, "strict-prefix-is-rejected")
 		}
